@@ -1530,7 +1530,18 @@ class FE:
         # indirect call: dispatch over the address-taken yielding functions of the same type
         ft = ins['ft']
         if not isinstance(ft, TFunc): ft = TFunc(ins['rett'], [a[0] for a in ins['args'] if a is not None], False)
-        cands = [g for g in em.addr_taken_yielding if tkey(TFunc(s.m.funcs[g].ret, [t for (t, _) in s.m.funcs[g].params], s.m.funcs[g].va)) == tkey(ft)]
+        cands = [g for g in em.addr_taken_yielding if g not in em.spawn_entries and tkey(TFunc(s.m.funcs[g].ret, [t for (t, _) in s.m.funcs[g].params], s.m.funcs[g].va)) == tkey(ft)]
+        def reaches(a, b):
+            seen = set(); work = [a]
+            while work:
+                x = work.pop()
+                if x == b: return True
+                if x in seen: continue
+                seen.add(x); work += list(em.conc_edges.get(x, ()))
+            return False
+        excluded = [g for g in cands if reaches(g, s.f.name)]
+        cands = [g for g in cands if g not in excluded]
+        for g in cands: em.conc_edges.setdefault(s.f.name, set()).add(g)
         if not cands: return False
         s.nyield += 1; k = s.nyield
         fpt = em.fptr_ty(ft); cv = s.V(TPtr(ft), callee)
@@ -1541,6 +1552,8 @@ class FE:
             out.append('%sif (f_->%s == (void*)&%s) {' % ('' if first else 'else ', fld, em.fname(g))); first = False
             s.conc_start(g, A); out.append('}')
         call = '((%s)f_->%s)(%s)' % (fpt, fld, ', '.join(A))
+        for g in excluded:
+            out.append('else if (f_->%s == (void*)&%s) { __CPROVER_assert(0, "modelling bound: recursive indirect call target excluded from the step-function dispatch"); __CPROVER_assume(0); }' % (fld, em.fname(g)))
         out.append('else { %s%s; goto N_%d; }' % ((r + ' = ') if r else '', call, k))
         out.append('R_%d: ;' % k)
         first = True
@@ -1564,8 +1577,17 @@ class FE:
         if n.startswith('llvm.memcpy') or n.startswith('llvm.memmove'):
             lv = ins['args'][2][1]
             if isinstance(lv, VInt) and 0 < lv.v <= 256:
-                em.bytes_structs.add(lv.v)
-                out.append('*(struct verif_B%d*)%s = *(const struct verif_B%d*)%s;' % (lv.v, A[0], lv.v, A[1]))
+                # typed aggregate assignment when either operand is a bitcast of a pointer to an object of exactly this size
+                # (keeps CBMC's objects field-sensitive instead of turning them into byte arrays)
+                et = None
+                for cand in (s.elem_type_of(ins['args'][0][1]), s.elem_type_of(ins['args'][1][1])):
+                    if cand is not None and isinstance(s.res(cand), (TStruct, TArr, TInt, TPtr)) and em.size_align(cand)[0] == lv.v: et = cand; break
+                if et is not None and not em.o.no_typed_memcpy:
+                    em.need_complete(et)
+                    out.append('*(%s*)%s = *(const %s*)%s;' % (s.cty(et), A[0], s.cty(et), A[1]))
+                else:
+                    em.bytes_structs.add(lv.v)
+                    out.append('*(struct verif_B%d*)%s = *(const struct verif_B%d*)%s;' % (lv.v, A[0], lv.v, A[1]))
             else:
                 # element-typed inline copy loop when the destination is a bitcast/gep of a typed pointer
                 et = s.elem_type_of(ins['args'][0][1]) or s.elem_type_of(ins['args'][1][1])
@@ -1859,6 +1881,11 @@ def emit_module(m, opts):
         for nn in list(em.yielding):
             if any(u in nn for u in opts.no_yield) or any(u in nn for u in opts.unreachable): em.yielding.discard(nn)
         em.addr_taken_yielding = sorted(g for g in em.yielding if is_addr_taken(g))
+        # thread entry functions (first argument of verif_thread_spawn) are started by the scheduler only; they are not candidates of indirect calls
+        em.spawn_entries = set()
+        for t in fn_txt.values():
+            for mm in re.finditer(r'@verif_thread_spawn\((?:[^@\n]*?)(@"(?:[^"\\]|\\.)*"|@[-a-zA-Z$._0-9]+)', t): em.spawn_entries.add(mm.group(1))
+        em.conc_edges = {n: set(c for c in calls[n] if c in em.yielding) for n in em.yielding}
         # recursion among yielding functions is not supported (static frames)
         for n in em.yielding:
             seen = set(); work = [c for c in calls[n] if c in em.yielding]
@@ -1951,7 +1978,11 @@ def emit_module(m, opts):
             d1.append('  if (fn == (void*)&%s) { fr_%s[verif_cur].v_%s = (%s)arg; fr_%s[verif_cur].pc_ = 0; return; }' % (em.fname(g), san(g), san(f.params[0][1]), em.cty(f.params[0][0]), san(g)))
             d2.append('  if (fn == (void*)&%s) return S_%s();' % (em.fname(g), san(g)))
         d1.append('}')
-        d2.append('  ((void (*)(void*))fn)(arg); return 1; }   /* non-yielding thread body runs as one step */')
+        for g in sorted(getattr(em, 'spawn_entries', ())):
+            if g in em.yielding or g not in m.funcs or m.funcs[g].decl or not kept(g): continue
+            f = m.funcs[g]
+            if len(f.params) == 1: d2.append('  if (fn == (void*)&%s) { %s((%s)arg); return 1; }   /* non-yielding thread body runs as one step */' % (em.fname(g), em.fname(g), em.cty(f.params[0][0])))
+        d2.append('  __CPROVER_assert(0, "modelling bound: thread entry function unknown to the step dispatch"); __CPROVER_assume(0); return 1; }')
         ent = '@' + opts.entry[0]
         if ent in em.yielding:
             d2.append('int verif_main_step(void) { return S_%s(); }' % san(ent))
@@ -1967,7 +1998,7 @@ def main():
     ap.add_argument('--gcc', action='store_true'); ap.add_argument('--conc', action='store_true'); ap.add_argument('--flex', action='store_true')
     ap.add_argument('--no-typed-malloc', action='store_true'); ap.add_argument('--alloc-cap', type=int, default=0)
     ap.add_argument('--unreachable', action='append', default=[])
-    ap.add_argument('--yield-atomics', action='store_true'); ap.add_argument('--no-yield', action='append', default=[])
+    ap.add_argument('--no-typed-memcpy', action='store_true'); ap.add_argument('--yield-atomics', action='store_true'); ap.add_argument('--no-yield', action='append', default=[])
     ap.add_argument('--dispatch', action='append'); ap.add_argument('--dispatch-threshold', type=int, default=8)
     o = ap.parse_args()
     text = open(o.input).read()
